@@ -128,8 +128,11 @@ def _check_iso9660_filename(fullname, interchange_level):
 
     # The version is a string of digits (Ecma-119 7.5.1).  int() on its own
     # raises ValueError for other characters, and accepts signs, blanks and
-    # underscores.
-    if version != b'' and (not version.isdigit() or int(version) < 1 or int(version) > 32767):
+    # underscores.  A separator has to be followed by a version ('FOO;' is
+    # not allowed), and a version with leading zeros ('FOO;01') would be
+    # recorded as an identifier different from 'FOO;1' although it is the same
+    # version of the same file, so only the plain decimal form is allowed.
+    if b';' in fullname and (not version.isdigit() or version[:1] == b'0' or int(version) > 32767):
         raise pycdlibexception.PyCdlibInvalidInput('ISO9660 filenames must have a version between 1 and 32767')
 
     # Ecma-119 section 7.5.1 specifies that filenames must have at least one
